@@ -429,6 +429,9 @@ def run_quant(prop, tier, seed):
         samples += [{k: c[k] for k in ("op", "i", "j", "n", "out", "dim", "phys", "truth")} for c in cases[:2]]
     if prop == "C12":
         sorted_triples(v, system, tier, seed)
+    if prop == "C11":
+        import algebra
+        algebra.run_algebra(v, "C11", seed)
     v.exhaustive = True
     v.rule = ("cases = (operator spelling, operands) enumerated by TLC over the pool; each executed once on the real library; "
               "non-trivial = cases whose operands are commensurable and the operation returned (value judged) or whose "
